@@ -7,6 +7,9 @@ CONSTANTS
   CrashOn = FALSE
   PowerLossOn = TRUE
   DirSyncOnRemove = FALSE
+  Groups = 1
+  GroupSize = 2
+  TombSyncs = TRUE
   MaxIno = 6
 INVARIANTS NoDuplicatesAfterMergeReturned
 
